@@ -42,7 +42,8 @@ RULE = (
     "EVERY single-byte XOR (generated mask), deletion and insertion position of the encrypted stream (exhaustive), plus "
     "hypothesis-generated multi-fault plans (<=4 of flip/delete/insert/truncate/packet swap/drop/duplicate/replay/replay-at/"
     "subst-at/swap-at). Direction asymmetry: the opposite direction of every stream has its own generated suite whose style "
-    "(classic/etm/aead) is cycled per inbound style, the receiver under test activates outbound and inbound keys (classes "
+    "(classic/etm/aead) is cycled per inbound style in quick (all 9 ordered style pairs in every run) and drawn per stream in "
+    "thorough, the receiver under test activates outbound and inbound keys (classes "
     "asymmetric-suites, styles:<in>/<out>, asymmetric-mac-size). Long streams (class long-stream): per framing class one generated "
     "stream of 520-560 (thorough 2060-2100) pairwise different tiny packets, optional mid-stream rekey; packet i (generated) is "
     "replayed at / substituted for / swapped with packet i+d for EVERY d of a structured list (1,2,3,8,16,17,64,127,128,129,255,"
@@ -415,8 +416,9 @@ def run(ctx):
         pairs = [(c, m) for c in pkt.CIPHERS for m in pkt.MACS]
         work = [(cm, z) for cm in pairs for z in ("none", "zlib")]
         extra_masks = [0x01, 0x80, 0xFF]
-    # style of the opposite direction: cycled within each inbound style (offset by the run seed), so that
-    # every ordered (inbound style, outbound style) pair is enumerated in every run
+    # style of the opposite direction: quick (one stream per class) cycles it within each inbound style (offset
+    # by the run seed), so that every ordered (inbound style, outbound style) pair is enumerated in every run;
+    # thorough (6 streams per class and worker) draws it per stream
     seen_style = {}
     other_styles = []
     for cm, z in work:
@@ -447,7 +449,7 @@ def run(ctx):
         # generated streams per class (sender role and strict flag alternate with the class index);
         # collect-then-continue: a failing (stream, single edit) is already minimal, no shrinking over streams
         strat = st.tuples(
-            _stream_spec_strategy(S, cm, (z,), rekey=True, role=("client", "server")[idx % 2], strict=bool((idx // 2) % 2), other_style=other_styles[idx]),
+            _stream_spec_strategy(S, cm, (z,), rekey=True, role=("client", "server")[idx % 2], strict=bool((idx // 2) % 2), other_style=other_styles[idx] if ctx.quick else None),
             mask_seed,
             S.frags,
         )
